@@ -1,11 +1,13 @@
 PROP = dict(
     gen=["tpdulayouts", "smsoctets"],
-    proof_files=["Properties/C18.v", "Proofs/TpduTotal.v"],
-    model_files=["Model/SemiOctet.v", "Model/Tpdu.v", "Model/TpduRun.v"],
+    proof_files=["Properties/C18.v", "Proofs/TpduTotal.v", "Proofs/TpduReader.v"],
+    model_files=["Model/SemiOctet.v", "Model/Tpdu.v", "Model/TpduRun.v", "Model/TpduReader.v"],
     trusted=["Gen/TpduLayouts.v: reflection over the structs sms.Unmarshal returns (dumper harness/gen_sms.go), classifying each field as the two walks dispatch it; GSM 7-bit tables read through the public decoder",
              "Go value -> Gallina observable printer harness/sms_common.go"],
     assumptions=["bufio.Reader over bytes.Reader, bytes.Buffer, reflect, time.Date/time.Time accessors, strconv.Itoa, x/text transform.Writer/Bytes are Go library code (modelled, tied by the generated cases)",
-                 "sms.Unmarshal is called on a bytes.Reader; a TPDU consumes < 4096 octets so the bufio buffer is filled once"],
+                 "the io.Reader handed to sms.Unmarshal delivers the octets in pieces of any positive sizes and then io.EOF (with the last piece or on the next call); "
+                 "readers that fail with another error or return (0, nil) are outside the quantifier. Reader independence is proved per primitive (C18_reader_independence_partial) "
+                 "and tested on the composed decoder for every input (four chunking readers)"],
 )
 GEN = {"tpdulayouts": "Gen/TpduLayouts.v", "smsoctets": "Gen/SmsOctets.v"}
 ENGINE = {"name": "sms", "path": "coq/Model/SemiOctet.v coq/Model/Tpdu.v coq/Spec/Gsm0340.v harness/gen_sms.go harness/sms_common.go harness/c18.go harness/c19.go",
